@@ -224,10 +224,15 @@ def plan_add(w: World, op: dict) -> Plan:
             # FileSystemTree): "If child is a Tree, all of its topnodes are added"
             subclass_target = True
         eff_deep = True if deep is None else bool(deep)
+        # typed target: an explicit kind= applies to the new top nodes, as it does
+        # for a single node source (the sibling shortcuts pass "the same kind")
+        tree_kind = kind if (typed and isinstance(kind, str) and not sibling_api) else None
         for t in sroot.children:
-            new_tops.append(copy_subtree(t, uidgen, deep=eff_deep))
+            new_tops.append(copy_subtree(t, uidgen, deep=eff_deep, kind=tree_kind))
         child_real = real_src
         trigger += "/tree"
+        if tree_kind is not None:
+            trigger += "/kind"
         if subclass_target:
             trigger += "/into-subclass-tree"
         if self_copy and (eff_deep or P.is_root()):
@@ -235,7 +240,7 @@ def plan_add(w: World, op: dict) -> Plan:
             self_copy_deep = True
         elif self_copy:
             trigger += "/own-tree-shallow"
-        if typed and any(t.kind != DEFAULT_KIND for t in new_tops):
+        if typed and tree_kind is None and any(t.kind != DEFAULT_KIND for t in new_tops):
             trigger += "/typed-nokind"
         owner = "C07"
     elif "node" in src:
